@@ -69,7 +69,22 @@ def _outparam_import(f, cond, lab):
             outs['(*%s)' % p_.get('name')] = canon(children(sa)[0])
         else:
             amap[p_.get('name')] = canon(a)
-    if not outs:
+    # by-value parameters the helper never assigns stand for the caller's actuals throughout: a fact the helper's success
+    # returns guarantee about such a parameter (`index < vector->num` in `bool check_index(v, index)`) holds for the actual
+    written = set()
+    for y in walk(h.body):
+        if y.get('kind') in ('BinaryOperator', 'CompoundAssignOperator') and (y.get('opcode') or '').endswith('=') and \
+                y.get('opcode') not in ('==', '!=', '<=', '>='):
+            l = strip(children(y)[0])
+            if l.get('kind') == 'DeclRefExpr':
+                written.add(canon(l))
+        elif y.get('kind') == 'UnaryOperator' and y.get('opcode') in ('++', '--', '&'):
+            l = strip(children(y)[0])
+            if l.get('kind') == 'DeclRefExpr':
+                written.add(canon(l))
+    vparams = {pn for pn, av in amap.items() if pn not in written and re.match(r'^[A-Za-z_]\w*$', av or '')
+               and not (qtype(next(p_ for p_ in h.params if p_.get('name') == pn)) or '').rstrip().endswith('*')}
+    if not outs and not vparams:
         return set()
     _IMPORT_STACK.append(h.name)
     try:
@@ -100,7 +115,7 @@ def _outparam_import(f, cond, lab):
             return amap[t]
         return None
     for (a, op, b, dom) in (common or ()):
-        if a in outs or b in outs:
+        if a in outs or b in outs or a in vparams or b in vparams:
             ra, rb = rename(a), rename(b)
             if ra is not None and rb is not None:
                 out.add((ra, op, rb, dom))
@@ -488,6 +503,25 @@ def rule_vcount(prog, rep, rid='VC'):
                     truth = (v != 0) if c.get('opcode') == '==' else (v == 0)   # value of var on the T edge
             elif access_path(c):
                 var, truth = access_path(c), True
+            # the call itself as the condition: `if (remove_at(v, i) == true)`, `if (!remove_at(v, i))`
+            dc, dtruth = c, True
+            while dc.get('kind') == 'UnaryOperator' and dc.get('opcode') == '!':
+                dtruth = not dtruth
+                dc = strip_parens(children(dc)[0])
+            if dc.get('kind') == 'BinaryOperator' and dc.get('opcode') in ('==', '!='):
+                a, b = children(dc)
+                for (x_, o_) in ((a, b), (b, a)):
+                    v = int_value(o_)
+                    if strip(x_).get('kind') == 'CallExpr' and isinstance(v, int):
+                        dtruth = dtruth == ((v != 0) if dc.get('opcode') == '==' else (v == 0))
+                        dc = strip(x_)
+                        break
+            dc = strip(dc)
+            if dc.get('kind') == 'CallExpr' and prog.callee_name(dc) == 'remove_at' and ('R', None) in st:
+                val_on_edge = dtruth if lab == 'T' else (not dtruth)
+                if not val_on_edge:
+                    return frozenset(set(st) | {('F',)})
+                return frozenset(set(st) | {('OK',)})
             if var and ('R', var) in st:
                 val_on_edge = truth if lab == 'T' else (not truth)
                 if not val_on_edge:
